@@ -32,7 +32,14 @@ t=open(f).read()
 verdict='VIOLATION' if 'VIOLATION property=' in t else ('UNDECIDED' if 'UNDECIDED' in t else ('OK' if t.startswith('OK') or '\nOK ' in t else '?'))
 fo=[l[len('failed obligation: '):] for l in t.split('\n') if l.startswith('failed obligation: ')]
 cex=[l for l in t.split('\n') if l.startswith('counterexample on the real code:')]
-if fo:
+so=[l[len('supporting obligation failed: '):] for l in t.split('\n') if l.startswith('supporting obligation failed: ')]
+if fo and fo[0].startswith('bounded stand-in'):
+    by='bounded stand-in on real code (proof unaffected)'; what=(cex[0][len('counterexample on the real code: '):] if cex else fo[0])[:170]
+elif fo and fo[0].startswith('kani harness'):
+    by='Kani harness'; what=fo[0][:170]
+elif so:
+    by='supporting contract fails' + (' + witness on real code' if cex else ', no concrete violation found'); what=so[0][:170]
+elif fo:
     by='verifier (clause fails)'; what=fo[0][:170]
     if 'no-failing-input-found' in t: by+=', no witness found'
     else: by+=' + witness on real code'
